@@ -110,6 +110,13 @@ namespace nmtools::index
             using element_t = meta::get_index_element_type_t<result_t>;
             using index_t = meta::make_signed_t<element_t>; // for comparison
 
+            // negative extent other than -1 is invalid (numpy: "negative dimensions not allowed")
+            for (size_t i=0; i<(size_t)len(dst_shape); i++) {
+                if ((index_t)at(dst_shape,i) < index_t(-1)) {
+                    return return_t{meta::Nothing};
+                }
+            }
+
             // number of "-1" in dst_shape
             #if 0
             const auto [minus_1_count, dst_numel] = count_negative_reshape(dst_shape);
